@@ -40,7 +40,7 @@ ASSUMPTIONS = [
 ]
 BUDGET = {"quick": 85, "thorough": 1500}
 FLOORS = {"cli_runs": {"quick": 500, "thorough": 5000}, "accepted": {"quick": 350, "thorough": 3500}, "loaded": {"quick": 250, "thorough": 2500},
-          "targets_evaluated": {"quick": 250, "thorough": 2500}, "jacobian_accounts": {"quick": 150, "thorough": 1500}, "constraint_checks": {"quick": 3000, "thorough": 30000}, "initial_value_checks": {"quick": 60, "thorough": 600}, "runs_completed": {"quick": 40, "thorough": 700},
+          "targets_evaluated": {"quick": 250, "thorough": 2500}, "jacobian_accounts": {"quick": 150, "thorough": 1500}, "constraint_checks": {"quick": 3000, "thorough": 30000}, "initial_value_checks": {"quick": 60, "thorough": 600}, "runs_completed": {"quick": 40, "thorough": 700}, "model_definition_checks": {"quick": 150, "thorough": 1500},
           "subcommands": 4}
 
 MODELS = ["JC69", "K80", "HKY", "SYM", "GTR", "SRD06", "MG94", "LG", "WAG"]
@@ -102,11 +102,11 @@ def cases(tier, seed):
             if pick(0.3):
                 e["keep"] = True
             if pick(0.3):
-                e["heights_init"] = "tree"
+                e["heights_init"] = str(rng.choice(["tree", "regression"]))
             if pick(0.25):
                 e["root_height_init"] = 9.5
             if pick(0.25) and clock == "strict":
-                e["rate_init"] = 0.0021
+                e["rate_init"] = [0.0021, 0.0021, "regression"][int(rng.integers(3))]
             elif pick(0.15) and clock == "strict":
                 e["rate"] = 0.0033
             if pick(0.2) and clock == "strict":
@@ -391,6 +391,21 @@ def check_loaded(case, spec, dic, V, C, detail, feat, torch):
     if target is None:
         V.append(tt.viol("C19:no-target", "cannot find the density handed to the algorithm", **detail))
         return
+    # (g) the substitution model is the one asked for: its free parameters are those of the documented model (K80 and SYM have equal,
+    # fixed base frequencies; JC69 has nothing to estimate) - "targets the right density" starts with the right model
+    FREE = {"JC69": set(), "K80": {"kappa"}, "HKY": {"kappa", "frequencies"}, "SYM": {"rates"}, "GTR": {"rates", "frequencies"}}
+    if case["model"] in FREE:
+        free = {k[len("substmodel."):-len(".unres")] for k in dic if str(k).startswith("substmodel.") and str(k).endswith(".unres")}
+        C["model_definition_checks"] = C.get("model_definition_checks", 0) + 1
+        if free != FREE[case["model"]]:
+            V.append(tt.viol("C19:model-definition:%s:free-parameters" % case["model"], "-m %s: the emitted substitution model estimates %s, the model has %s free [%s]" % (
+                case["model"], sorted(free) or "nothing", sorted(FREE[case["model"]]) or "nothing", " ".join(detail["argv"])), **detail))
+            return
+        if case["model"] in ("JC69", "K80", "SYM") and "substmodel.frequencies" in dic:
+            f = dic["substmodel.frequencies"].tensor.detach().reshape(-1)
+            if float((f - 0.25).abs().max()) > 1e-6:
+                V.append(tt.viol("C19:model-definition:%s:frequencies" % case["model"], "-m %s has equal base frequencies, the emitted model starts from %s" % (case["model"], f.tolist()), **detail))
+                return
     # (b) finite target and gradient at the initial point
     leaves = leaf_parameters(target)
     sampled = sampled_leaves(algo, dic, sub)
@@ -545,7 +560,20 @@ def initial_values(case, dic, V, C, detail, torch):
         if not near(got, expected, tol):
             V.append(tt.viol("C19:initial-value:" + what, "%s requested, but %s starts at %s (expected %s)" % (what, pid, np.asarray(got).reshape(-1)[:4], np.asarray(expected).reshape(-1)[:4]), **detail))
 
-    if "rate_init" in e and case["clock"] == "strict":
+    def regression_slope():
+        """root-to-tip regression on the input tree (dates from the taxon names), by the harness: ordinary least squares in double precision"""
+        names = T["names"]
+        x = np.array([T["dates"][nm] for nm in names], dtype=float)
+        y = np.array([T["root_height"] - (max(T["dates"].values()) - T["dates"][nm]) for nm in names], dtype=float)
+        return float(np.polyfit(x, y, 1)[0])
+
+    uses_regression = e.get("rate_init") == "regression" or (e.get("heights_init") == "regression" and "rate_init" not in e and "rate" not in e)
+    if case["clock"] == "strict" and e.get("dates") is None and not e.get("nexus"):
+        if uses_regression:
+            want("branchmodel.rate", [regression_slope()], "--rate_init regression", tol=1e-4)
+        elif "rate_init" in e:
+            want("branchmodel.rate", [e["rate_init"]], "--rate_init")
+    elif "rate_init" in e and e["rate_init"] != "regression" and case["clock"] == "strict" and e.get("heights_init") != "regression":
         want("branchmodel.rate", [e["rate_init"]], "--rate_init")
     if "rate" in e and case["clock"] == "strict":
         want("branchmodel.rate", [e["rate"]], "--rate")
